@@ -32,7 +32,10 @@ def run(ctx, replay=None):
             key = note.split(":")[0]
             tx = any(w.endswith("-tx") for w in wset)
             rx = any(w.endswith("-rx") for w in wset)
-            if key in WINDOW_KEYS and tx:
+            pr = any(w.startswith("expiry-after-rxdone") for w in wset)
+            if key in WINDOW_KEYS and pr and not tx:
+                ctx.classify("poll-rx-race", "C06 oracle: " + note, {"case": c, "note": note})
+            elif key in WINDOW_KEYS and tx:
                 ctx.classify("tx-window", "C06 oracle: " + note, {"case": c, "note": note})
             elif key in WINDOW_KEYS and rx:
                 ctx.classify("rx-window", "C06 oracle: " + note, {"case": c, "note": note})
